@@ -32,7 +32,7 @@ def propagator(REG, qualname, rel, n_min=1, params="i32[m]", requires=(), entail
         types={"domains": "i32[n,2]", "parameters": params},
         requires=[f"n >= {n_min}", "forall(k, 0, n, domains[k, MIN] <= domains[k, MAX])"] + list(requires),
         ensures=ens,
-        modifies=["domains"],
+        modifies=["domains"] + list(kw.pop("ghost_modifies", [])),
         ghost=g,
         loops=loops or {},
         hints=list(hints),
